@@ -348,11 +348,13 @@ def run(ctx):
     k2 = dict(op="report", games=enc({"a": copy.deepcopy(gen_games.FIG55), "a_no_prune": unsolvable(rng)}),
               path="inputs/k2.py", scratch=SCRATCH, limit=60)
     # end to end through the command line
-    ncli = 3 if ctx.quick else 20
+    ncli = 4 if ctx.quick else 20
     cli_jobs = []
     for games, kinds, path, c in cases[:ncli]:
         st = py_stem(path)
-        cli_jobs.append(dict(op="solver_cli", path="inputs/%s.py" % st, text=repr(games), argv=["-f", "inputs/%s.py" % st, "-s"], limit=60))
+        # every log level the command line offers: the report must not depend on it
+        lvl = [[], ["-l", "i"], ["-l", "dd"], ["--log_level", "d"]][len(cli_jobs) // 2 % 4]
+        cli_jobs.append(dict(op="solver_cli", path="inputs/%s.py" % st, text=repr(games), argv=["-f", "inputs/%s.py" % st, "-s"] + lvl, limit=60))
         cli_jobs.append(dict(op="solver_cli", path="inputs/%s.py" % st, text=repr(games), argv=["--file", "inputs/%s.py" % st], limit=60))
 
     res = impl.run_cases(jobs + rjobs + [k2] + cli_jobs, limit=60, tag="c16")
